@@ -1,7 +1,7 @@
 """C14 - note sections and segments yield every note exactly once; stabs."""
 from symx.api import H
 from spec import enc
-from harness.elfkit import stream_length, elf_object
+from harness.elfkit import stream_length, elf_object, shdr, phdr
 from spec import registry as REG
 
 PROPERTY = 'C14'
@@ -43,34 +43,20 @@ def _first_nul(ctx, cells):
     return None
 
 
-def _first_only(holder):
-    """history: an earlier walk that stopped at the first note (the usual build-id lookup); the full listing afterwards is unaffected"""
-    it = holder.iter_notes()
-    try:
-        next(it)
-    except StopIteration:
-        pass
-    except Exception:
-        return
-    del it
-
-
 def _iter(ctx, elf, off, size, via):
     N = ctx.lib('elf.notes')
     if via == 'func':
-        return ctx.drain(N.iter_notes(elf, off, size))
+        return ctx.walk(lambda: N.iter_notes(elf, off, size))
     if via == 'section':
         SEC = ctx.lib('elf.sections')
-        hdr = {'sh_offset': off, 'sh_size': size, 'sh_type': 'SHT_NOTE', 'sh_flags': 0, 'sh_addralign': 4}
+        hdr = shdr(sh_offset=off, sh_size=size, sh_type='SHT_NOTE', sh_flags=2, sh_addralign=4)
         elf.structs  # noqa
         sec = SEC.NoteSection(hdr, '.note', elf)
-        _first_only(sec)
-        return ctx.drain(sec.iter_notes())
+        return ctx.walk(lambda: sec.iter_notes())
     SEG = ctx.lib('elf.segments')
-    hdr = {'p_offset': off, 'p_filesz': size, 'p_type': 'PT_NOTE'}
+    hdr = phdr(p_offset=off, p_filesz=size, p_type='PT_NOTE')
     seg = SEG.NoteSegment(hdr, elf.stream, elf)
-    _first_only(seg)
-    return ctx.drain(seg.iter_notes())
+    return ctx.walk(lambda: seg.iter_notes())
 
 
 # ------------------------------------------------------------------ H14.1 one step, symbolic sizes
@@ -317,9 +303,9 @@ def h_stabs(ctx):
         image += enc.enc_int(strx, 4, little) + [typ, other] + enc.enc_int(desc, 2, little) + enc.enc_int(value, 4, little)
     image += [0xEE] * 7
     elf = _Elf(ctx, ctx.stream(image), little, cfg['elfclass'])
-    hdr = {'sh_offset': base, 'sh_size': 12 * k, 'sh_type': 'SHT_PROGBITS', 'sh_flags': 0, 'sh_addralign': 4}
+    hdr = shdr(sh_offset=base, sh_size=12 * k, sh_type='SHT_PROGBITS', sh_flags=0, sh_addralign=4, sh_entsize=12)
     sec = SEC.StabSection(hdr, '.stab', elf)
-    got = ctx.drain(sec.iter_stabs())
+    got = ctx.walk(lambda: sec.iter_stabs())
     ctx.outcome('ok')
     ctx.check_eq('stabs/count', len(got), k)
     if len(got) == k:
